@@ -48,6 +48,17 @@ def enc_cases(rng):
             out.append({'D': D, 'X': X, 'ast': None, 'enc': enc, 'opts': {'pack': '*', 'lang': rng.choice(['', 'de']), 'ienc': enc}})
     return out
 
+def odd_name_cases(rng):
+    """a definition and a use for every macro name that lies next to a control word the parser treats specially
+    (\\g, \\gd, \\de, \\beg, \\ite, \\ver, \\newc ...): expands like any other name, from every source"""
+    out = []
+    for nm in gen.odd_macro_names():
+        w = ['Q' + ''.join(rng.choice('abcdefghijklmnop') for _ in range(4)) for _ in range(5)]
+        D = rng.choice(['\\newcommand{%s}[1]{%s #1 %s}\n', '\\def%s#1{%s #1 %s}\n', '\\newcommand%s[1]{%s #1 %s}\n']) % (nm, w[0], w[1])
+        X = '%s %s{%s} %s\n' % (w[2], nm, w[3], w[4])
+        out.append({'D': D, 'X': X, 'ast': None, 'opts': {'pack': '*', 'lang': ''}, 'expect': [w[2], w[0], w[3], w[1], w[4]], 'odd': nm})
+    return out
+
 def run_one(case):
     return [t2t.run_case(c) for c in runs(case)]
 
@@ -72,6 +83,10 @@ def judge(case, rs):
     if a['txt'].strip() and not a['txt'].lstrip('\n').startswith(b['txt'].lstrip('\n')[:5]):
         fails.append('definition lines leave text')
     # substitution semantics
+    if case.get('expect') is not None and not fails:
+        got = [w for w, _ in semrun.out_words(b['txt'])]
+        if got != case['expect']:
+            fails.append('macro %s: expansion gives the words %r, TeX substitution gives %r (text %r)' % (case.get('odd'), got, case['expect'], b['txt']))
     if case.get('ast') is None:
         return fails
     try:
@@ -88,7 +103,7 @@ def judge(case, rs):
 def run(ctx):
     n = ctx.scale(500, 12000)
     rng = ctx.rng
-    cases = [make_case(rng) for _ in range(n)] + enc_cases(rng)
+    cases = [make_case(rng) for _ in range(n)] + enc_cases(rng) + odd_name_cases(rng)
     ctx.stats['_rule'] = ('sets of 1-4 non-recursive definitions (\\newcommand/\\renewcommand with 0-3 parameters and optional default, \\def) and '
                           'documents using them at any nesting depth, before and after the definitions; three supply routes (in document, --defs, '
                           '\\LTinput); non-trivial = at least one use of a defined macro')
@@ -100,7 +115,7 @@ def run(ctx):
         ctx.count('outcome_' + '/'.join(r['outcome'] for r in rs))
         fails = judge(c, rs)
         if fails:
-            ctx.violation(fails[0], D=c['D'], X=c['X'], opts=c['opts'], src=c['D'] + c['X'], enc=c.get('enc'))
+            ctx.violation(fails[0], D=c['D'], X=c['X'], opts=c['opts'], src=c['D'] + c['X'], enc=c.get('enc'), expect=c.get('expect'), odd=c.get('odd'))
         if len(ctx.samples) < 3:
             ctx.sample({'D': c['D'], 'X': c['X'][:200], 'out': rs[1].get('txt', '')[:200]})
         for cc, rr in zip(runs(c), rs):
@@ -212,7 +227,7 @@ def judge_witness(w):
             wa = [x for x, _ in semrun.out_words(ra['txt'])]; wb = [x for x, _ in semrun.out_words(rb['txt'])]
             return [] if wa == wb else ['words %r, with the file pasted in place %r' % (wa, wb)]
         return []
-    c = {'D': w['D'], 'X': w['X'], 'opts': w.get('opts') or {}, 'ast': {'t': 'seq', 'items': []}, 'enc': w.get('enc')}
+    c = {'D': w['D'], 'X': w['X'], 'opts': w.get('opts') or {}, 'ast': {'t': 'seq', 'items': []}, 'enc': w.get('enc'), 'expect': w.get('expect'), 'odd': w.get('odd')}
     return [f for f in judge(c, run_one(c)) if 'substitution' not in f]
 
 def replay(data):
